@@ -556,6 +556,44 @@ class Gen:
         self.touch(h)
         return ops
 
+    def macro_family(self, mode=None):
+        """several children of ONE otherwise untouched parent added / removed in one transaction (the parent gets one new
+        version and one report part), a nested removal, and the two kinds of transactions the library refuses"""
+        iface = self._iface_seq(mode)
+        vmds = [h for h in self.tree if self.types[h] == 'VmdDescriptor']
+        if not vmds:
+            return []
+        v = self.pick(vmds)
+        ch, m1, m2, m3, m4 = (f'g_{self.fresh()}' for _ in range(5))
+        ops = [{'k': 'descr', 'iface': iface(), 'actions': [self.add_action(ch, v, 'ChannelDescriptor', None)]},
+               {'k': 'descr', 'iface': iface(), 'tag': ['siblings-add'],
+                'actions': [self.add_action(m1, ch, 'NumericMetricDescriptor', None),
+                            self.add_action(m2, ch, 'NumericMetricDescriptor', None)]},
+               {'k': 'state', 'tx': 'comp', 'iface': iface(), 'items': [[ch, self.fresh()]]}]
+        # one sibling added, another removed: still one new version of the parent
+        a3 = self.add_action(m3, ch, 'NumericMetricDescriptor', None)
+        ops.append({'k': 'descr', 'iface': iface(), 'tag': ['sibling-add+remove'], 'actions': [a3, ['del', m1]]})
+        self._del(m1)
+        # refused as a whole: update below a removed subtree / a child below a removed parent / an orphan
+        ops.append({'k': 'descr', 'iface': iface(), 'actions': [['upd', m2, self.fresh()], ['del', ch]], 'subtree_conflict': True})
+        ops.append({'k': 'descr', 'iface': iface(), 'subtree_conflict': True,
+                    'actions': [['del', ch], ['add', m4, ch, 'NumericMetricDescriptor', self.fresh(), None]]})
+        ops.append({'k': 'descr', 'iface': 'entity', 'orphan': True,
+                    'actions': [['add', f'g_{self.fresh()}', f'no_such_parent_{self.fresh()}', 'NumericMetricDescriptor', self.fresh(), None]]})
+        ops.append({'k': 'descr', 'iface': iface(), 'actions': [['upd', m2, self.fresh()]]})
+        # both remaining siblings removed in one transaction, then a nested removal of what is left
+        ops.append({'k': 'descr', 'iface': iface(), 'tag': ['siblings-remove'], 'actions': [['del', m2], ['del', m3]]})
+        self._del(m2)
+        self._del(m3)
+        a5 = self.add_action(m4, ch, 'NumericMetricDescriptor', None)
+        ops.append({'k': 'descr', 'iface': iface(), 'actions': [a5]})
+        acts = [['del', m4], ['del', ch]]
+        if self.rng.random() < 0.5:
+            acts.reverse()
+        ops.append({'k': 'descr', 'iface': iface(), 'tag': ['nested-remove'], 'actions': acts, 'subtree_conflict': True})
+        self._del(ch)
+        return ops
+
     def ensure_gen_pc(self, iface, ops):
         """a context descriptor the generator may delete: a PatientContext below a SystemContext that has none"""
         pcs = [h for h in self.tree if h.startswith('g_') and self.types[h] == 'PatientContextDescriptor']
@@ -982,7 +1020,11 @@ def _sc_stale(g, mode):
             g.macro_stale(mode, 'ctx') + g.macro_ctx_descr_upd(mode) + g.macro_same_handle_twice())
 
 
-SCENARIOS = [_sc_cycles, _sc_cycles_stale, _sc_new_mds, _sc_ctx, _sc_abort, _sc_interleave, _sc_stale]
+def _sc_family(g, mode):
+    return g.macro_family(mode) + g.macro_cycles(mode, cycles=2, stale=False)
+
+
+SCENARIOS = [_sc_cycles, _sc_cycles_stale, _sc_new_mds, _sc_ctx, _sc_abort, _sc_interleave, _sc_stale, _sc_family]
 
 
 # ----------------------------------------------------------------------------- oracles on implementation traces
